@@ -185,7 +185,7 @@ func (c *Ctx) RunNamed(names []string, workers int, fn func(cs *Case)) {
 		}()
 	}
 	for _, name := range names {
-		if c.replayCase != "" && c.replayCase != name {
+		if c.replayCase != "" && c.replayCase != name && !strings.HasPrefix(c.replayCase, name+"/") {
 			continue
 		}
 		ch <- name
